@@ -19,4 +19,5 @@ CONSTANTS
   PropReqVals = {4, 9}
   PropFees = {5}
   PropShapes = {"default", "last"}
+  MaxFeeModes = {"high", "evenPart", "belowFirst"}
 INVARIANTS EmitAll
